@@ -28,7 +28,8 @@ class GhostDecl:
 
 
 class GlobDecl:
-    def __init__(self, module, name, T, inv=None, const=None, doc="", factory=None):
+    def __init__(self, module, name, T, inv=None, const=None, doc="", factory=None, guard=None):
+        self.guard = guard          # name of the module-level lock that must be held whenever code of this module reads or writes the global
         self.module = module
         self.name = name
         self.T = T
@@ -206,12 +207,12 @@ class Contract:
         self.at_call_.append((callee_key, label, expr, prop))
         return self
 
-    def yield_at(self, callee_key, paths, guarantee=None, tag=None):
+    def yield_at(self, callee_key, paths, guarantee=None, tag=None, when=None):
         """Interference point: at every call of `callee_key` (e.g. time.sleep) other threads run; the listed paths are havocked there and
         `guarantee` (what the other threads preserve; an assumption listed under `tag`) is assumed afterwards."""
         if not hasattr(self, "yield_at_"):
             self.yield_at_ = []
-        self.yield_at_.append((callee_key, list(paths), guarantee, tag))
+        self.yield_at_.append((callee_key, list(paths), guarantee, tag, when))
         if tag:
             self.assumes(tag)
         return self
@@ -423,8 +424,8 @@ class Schema:
     def ghost(self, name, sort, doc="", elem=None):
         self.ghosts[name] = GhostDecl(name, sort, doc, elem)
 
-    def glob(self, module, name, T, inv=None, const=None, doc="", factory=None):
-        self.globs[(module, name)] = GlobDecl(module, name, T, inv, const, doc, factory)
+    def glob(self, module, name, T, inv=None, const=None, doc="", factory=None, guard=None):
+        self.globs[(module, name)] = GlobDecl(module, name, T, inv, const, doc, factory, guard)
 
     def mro(self, cls):
         out = []
